@@ -58,7 +58,9 @@ class Ctx:
         for f in res.get("fired") or []:
             self.fired(str(f[-1]))
         if res.get("status") == "timeout":
-            raise HarnessError("session timed out (watchdog)")
+            # a session that hangs is a session that did not complete: the properties decide what that means
+            # (C18 and the outcome properties report it, the others discard the run); it is never a pass
+            self.count("sessions_killed_by_watchdog")
         return res
 
 
